@@ -465,6 +465,40 @@ def run(chk):
         okops = set(ops) <= {"<=", ">"} and bool(ops)
         chk.ob("C07-D6.tolerance", k, "equality with the tolerance counts as small", okops, fn.where, "comparison operators against tolerance: %s" % (ops,), "only `x <= tolerance` / `x > tolerance`")
 
+    # ------------------------------------------------------------------ D9 normalisation that can be zero
+    chk.rule("C07-D9.norm", "surplus tests divide by the per-output maximum returned by getNormalization(); where a quotient is tested with `<= tolerance` (a NaN from 0/0 fails the test and "
+                            "flags the point) the class's getNormalization() replaces a zero maximum, otherwise an identically zero output forces refinement of every point at any tolerance")
+    nnorm = 0
+    for cls in ("TasGrid::GridLocalPolynomial", "TasGrid::GridWavelet"):
+        gn = [f for f in gridfns if f.cls == cls and short(f.name) == "getNormalization"]
+        if not gn:
+            continue
+        replaces_zero = False
+        for q in gn[0].walk():
+            if q.get("k") == "IfStmt":
+                ct = txt(strip(q.get("cond"))).replace(" ", "")
+                if ("==0" in ct or "==0.0" in ct or "<=0" in ct) and any(x.get("k") == "BinaryOperator" and x.get("op") == "=" for x in walk(q.get("then"))):
+                    replaces_zero = True
+        for f in gridfns:
+            if f.cls != cls:
+                continue
+            nv = {v["did"] for v in f.locals().values() if "did" in v and any((callee(x) or "").endswith("::getNormalization") for c in v.get("c", []) if isinstance(c, dict) for x in walk(c))}
+            if not nv:
+                continue
+            for q in f.walk():
+                if q.get("k") != "BinaryOperator" or q.get("op") not in ("<=", "<"):
+                    continue
+                lhs = q["c"][0]
+                divs = [x for x in walk(lhs) if x.get("k") == "BinaryOperator" and x.get("op") == "/" and any(y.get("k") == "DeclRefExpr" and y.get("did") in nv for y in walk(x["c"][1]))]
+                if not divs:
+                    continue
+                nnorm += 1
+                chk.saw(f)
+                chk.ob("C07-D9.norm", f.key, "`%s` @%d" % (txt(q)[:60], q.get("l", 0)), replaces_zero, f.loc(q),
+                       "" if replaces_zero else "0/0 = NaN fails this test: with an identically zero output every point is refined whatever the tolerance",
+                       "getNormalization() never returns zero, or the test is written so that NaN counts as small")
+    chk.floor("C07-D9.norm", nnorm, 2, "NaN-failing surplus tests")
+
     # ------------------------------------------------------------------ D8 a validated selection parameter is consumed on every branch
     chk.rule("C07-D8.consumed", "the scale correction that the API validates and documents for surplus refinement / surplus-driven construction is handed to the grid class on every "
                                 "dispatch branch that performs the selection (a branch that drops it selects the uncorrected set)")
